@@ -16,7 +16,8 @@ RULE = ("generic_message over: service 0..0x7F (int and bytes), class/instance/a
         "in {True, False, string, segment list, pre-encoded bytes}, driver paths spelled from the path grammar over 0-3 hop chassis, any "
         "reply data / status chosen by the target; helpers get_module_info(slot), get_plc_name, get_plc_info, get/set_plc_time "
         "(0..year 9999 in microseconds); get_module_info on an empty slot; typed replies too short for the data type; re-open after a close() "
-        "whose Forward Close the target refused (connection timed out on the PLC). Oracle: the target's router journal entry (transport, service, "
+        "whose Forward Close the target refused (connection timed out on the PLC); Unconnected Send refused by the router itself (reply service 0xD2: falsy Tag "
+        "with the status text); get_plc_name() again after the controller's program name changed; set_plc_time() without an argument. Oracle: the target's router journal entry (transport, service, "
         "path, data, route) equals the request, the raw request path uses the segment widths the caller gave as bytes; Tag value equals the "
         "target's reply data (raw or reference-decoded). distinct = (transport, route_path form, "
         "path widths, data-length parity, reply class) evaluated")
